@@ -587,6 +587,63 @@ _ARG_VARIANTS = [
       (S, _S_BODY, '\treturn describeWith(ks.SignatureAlgorithm().Hash(), genDesc)\n')]),
 ]
 
+# ---- fallible steps of the signing call tree (signing/step-succeeded): the nil-error edge of every step whose result is
+#      consumed is must-pass for the success-capable exits behind the consumption ----
+_G_DESC = '\tdesc, err := getDescriptor(ks, genDesc)\n\tif err != nil {\n\t\treturn nil, nil, err\n\t}\n'
+_G_KS = '\tks, err := s.signer.KeySpec()\n\tif err != nil {\n\t\treturn nil, nil, err\n\t}\n'
+_G_BLOB = _G_KS + _G_DESC + '\treturn s.Sign(ctx, desc, opts)\n'
+_G_MARSHAL_S = 'payloadBytes, err := json.Marshal(payload)\n\tif err != nil {\n\t\treturn nil, nil, fmt.Errorf("envelope payload can\'t be marshalled: %w", err)\n\t}\n\tvar signingAgentId string'
+_G_NEWENV = '\tsigEnv, err := signature.NewEnvelope(opts.SignatureMediaType)\n\tif err != nil {\n\t\treturn nil, nil, err\n\t}\n'
+_G_COPY = '\t\tbytes, err := io.Copy(digester.Hash(), reader)\n\t\tif err != nil {\n\t\t\treturn ocispec.Descriptor{}, err\n\t\t}\n'
+_P_DESC = '\tdesc, err := getDescriptor(ks, descGenFunc)\n\tif err != nil {\n\t\treturn nil, nil, err\n\t}\n'
+_FAILED_FN = 'func failed(err error) bool { return err != nil }\n\n'
+def _cond(block, new, old='if err != nil {'):
+    assert block.count(old) == 1
+    return block.replace(old, new)
+_STEP = 'flagged(signing/step-succeeded)'
+_STEP_VARIANTS = [
+ # the guard weakened: `false && (C)` and a conjunct built from something in scope
+ dict(name='step-blob-descriptor-guard-false', file=S, expect=_STEP, find=_G_DESC, replace=_cond(_G_DESC, 'if false && (err != nil) {')),
+ dict(name='step-blob-descriptor-guard-extra-conjunct', file=S, expect=_STEP, find=_G_DESC, replace=_cond(_G_DESC, 'if opts.SigningAgent != "" && err != nil {')),
+ dict(name='step-keyspec-guard-false', file=S, expect=_STEP, find=_G_KS, replace=_cond(_G_KS, 'if false && (err != nil) {')),
+ dict(name='step-keyspec-guard-extra-conjunct', file=S, expect=_STEP, find=_G_KS, replace=_cond(_G_KS, 'if opts.ExpiryDuration != 0 && err != nil {')),
+ dict(name='step-marshal-guard-false', file=S, expect=_STEP, find=_G_MARSHAL_S, replace=_cond(_G_MARSHAL_S, 'if false && (err != nil) {')),
+ dict(name='step-marshal-guard-extra-conjunct', file=S, expect=_STEP, find=_G_MARSHAL_S, replace=_cond(_G_MARSHAL_S, 'if len(desc.Annotations) > 0 && err != nil {')),
+ dict(name='step-new-envelope-guard-false', file=S, expect=_STEP, find=_G_NEWENV, replace=_cond(_G_NEWENV, 'if false && (err != nil) {')),
+ dict(name='step-new-envelope-guard-extra-conjunct', file=S, expect=_STEP, find=_G_NEWENV, replace=_cond(_G_NEWENV, 'if opts.Timestamper != nil && err != nil {')),
+ dict(name='step-blob-read-guard-false', file=N, expect=_STEP, find=_G_COPY, replace=_cond(_G_COPY, 'if false && (err != nil) {')),
+ dict(name='step-blob-read-guard-only-when-nothing-read', file=N, expect=_STEP, find=_G_COPY, replace=_cond(_G_COPY, 'if bytes == 0 && err != nil {')),
+ dict(name='step-plugin-blob-descriptor-guard-false', file=SP, expect=_STEP, find=_P_DESC, replace=_cond(_P_DESC, 'if false && (err != nil) {')),
+ dict(name='step-plugin-blob-descriptor-guard-extra-conjunct', file=SP, expect=_STEP, find=_P_DESC, replace=_cond(_P_DESC, 'if len(mergedConfig) > 0 && err != nil {')),
+ # other ways to get past a failed step
+ dict(name='step-blob-descriptor-error-dropped', file=S, expect=_STEP, find=_G_DESC, replace='\tdesc, _ := getDescriptor(ks, genDesc)\n'),
+ dict(name='step-blob-descriptor-error-only-logged', file=S, expect=_STEP, find=_G_DESC,
+      replace='\tdesc, err := getDescriptor(ks, genDesc)\n\tif err != nil {\n\t\tlogger.Debugf("describing the blob failed: %v", err)\n\t}\n'),
+ dict(name='step-blob-descriptor-other-error-tested', file=S, expect=_STEP, find=_G_BLOB,
+      replace=_G_KS.replace('ks, err :=', 'ks, ksErr :=').replace('if err != nil {\n\t\treturn nil, nil, err', 'if ksErr != nil {\n\t\treturn nil, nil, ksErr') +
+              '\tdesc, err := getDescriptor(ks, genDesc)\n\tif ksErr != nil {\n\t\treturn nil, nil, err\n\t}\n\treturn s.Sign(ctx, desc, opts)\n'),
+ dict(name='step-single-exit-descriptor-used-after-failed-keyspec', file=S, expect=_STEP, find=_G_BLOB,
+      replace='\tks, err := s.signer.KeySpec()\n\tdesc, descErr := getDescriptor(ks, genDesc)\n\tif descErr != nil {\n\t\treturn nil, nil, descErr\n\t}\n\t_ = err\n\treturn s.Sign(ctx, desc, opts)\n'),
+ # the same guard spelled differently: silent
+ dict(name='benign-step-guard-operands-swapped', file=S, expect='silent', find=_G_DESC, replace=_cond(_G_DESC, 'if nil != err {')),
+ dict(name='benign-step-guard-switch', file=S, expect='silent', find=_G_DESC,
+      replace='\tdesc, err := getDescriptor(ks, genDesc)\n\tswitch {\n\tcase err != nil:\n\t\treturn nil, nil, err\n\t}\n'),
+ dict(name='benign-step-guard-in-predicate-helper', expect='silent', edits=[
+      (S, _G_DESC, _cond(_G_DESC, 'if failed(err) {')), (S, _G_MARSHAL_S, _cond(_G_MARSHAL_S, 'if failed(err) {')), (S, _GETDESC, _FAILED_FN + _GETDESC)]),
+ dict(name='benign-step-success-nested', file=S, expect='silent', find=_G_DESC + '\treturn s.Sign(ctx, desc, opts)\n',
+      replace='\tdesc, err := getDescriptor(ks, genDesc)\n\tif err == nil {\n\t\treturn s.Sign(ctx, desc, opts)\n\t}\n\treturn nil, nil, err\n'),
+ dict(name='benign-step-errors-merged-one-test', file=S, expect='silent', find=_G_BLOB,
+      replace='\tvar desc ocispec.Descriptor\n\tks, err := s.signer.KeySpec()\n\tif err == nil {\n\t\tdesc, err = getDescriptor(ks, genDesc)\n\t}\n\tif err != nil {\n\t\treturn nil, nil, err\n\t}\n\treturn s.Sign(ctx, desc, opts)\n'),
+ dict(name='benign-step-result-logged-ahead-of-the-test', file=S, expect='silent', find=_G_DESC,
+      replace='\tdesc, err := getDescriptor(ks, genDesc)\n\tlogger.Debugf("descriptor to sign: %+v", desc)\n\tif err != nil {\n\t\treturn nil, nil, err\n\t}\n'),
+ dict(name='benign-step-single-exit', file=S, expect='silent', find=_G_BLOB,
+      replace='\tvar sig []byte\n\tvar info *signature.SignerInfo\n\tks, err := s.signer.KeySpec()\n\tif err == nil {\n\t\tvar desc ocispec.Descriptor\n\t\tif desc, err = getDescriptor(ks, genDesc); err == nil {\n\t\t\tsig, info, err = s.Sign(ctx, desc, opts)\n\t\t}\n\t}\n\treturn sig, info, err\n'),
+ dict(name='benign-step-blob-read-guard-switch', file=N, expect='silent', find=_G_COPY,
+      replace='\t\tbytes, err := io.Copy(digester.Hash(), reader)\n\t\tswitch {\n\t\tcase nil != err:\n\t\t\treturn ocispec.Descriptor{}, err\n\t\t}\n'),
+ dict(name='benign-step-marshal-result-stored-ahead-of-the-test', file=S, expect='silent', find=_G_MARSHAL_S,
+      replace='payloadBytes, err := json.Marshal(payload)\n\tsignedPayload := signature.Payload{ContentType: envelope.MediaTypePayloadV1, Content: payloadBytes}\n\tif err != nil {\n\t\treturn nil, nil, fmt.Errorf("envelope payload can\'t be marshalled: %w", err)\n\t}\n\t_ = signedPayload\n\tvar signingAgentId string'),
+]
+
 VARIANTS = [
  dict(name='F11-reintroduced', file=N, expect='flagged(reader/)',
       find='''	var payload envelope.Payload
@@ -742,4 +799,4 @@ VARIANTS = [
  # ======== second pass: classes of rewrites rather than single shapes ========
  # (5) CLASS "value computed by a module helper / parameter narrowed or widened": the expiry is the result of a helper that is
  #     handed the signing time and the duration (or the options, or the request), or a helper stores it into the request
-] + _EXPIRY_VARIANTS + _RETURN_VARIANTS + _OBJECT_VARIANTS + _CTOR_VARIANTS + _TABLE_VARIANTS + _CUT_VARIANTS + _ONCE_VARIANTS + _ARG_VARIANTS
+] + _EXPIRY_VARIANTS + _RETURN_VARIANTS + _OBJECT_VARIANTS + _CTOR_VARIANTS + _TABLE_VARIANTS + _CUT_VARIANTS + _ONCE_VARIANTS + _ARG_VARIANTS + _STEP_VARIANTS
